@@ -25,6 +25,10 @@ def close(x, y, rel=1e-12):
     return bool(np.allclose(np.asarray(x, dtype=float), np.asarray(y, dtype=float), rtol=rel, atol=0))
 
 
+def state_of(o):
+    return {k: (list(v) if isinstance(v, (list, tuple, np.ndarray)) else v) for k, v in vars(o).items() if k not in ('nf_model',)}
+
+
 # ---- FiberParams: every documented key, present or absent
 base = {'length': 80.5, 'length_units': 'km', 'loss_coef': 0.21, 'pmd_coef': 1.3e-15}
 options = {
@@ -123,6 +127,85 @@ for combo in combos:
     if prob:
         wit.append({'key': f'fiber-params:{ {k: v for k, v in o.items() if v} }', 'problems': prob[:3]})
 
+# ---- a loss table listed in any order pairs each frequency with its own value; the element reads the table at the asked frequencies
+for order in ((0, 1, 2, 3), (3, 2, 1, 0), (2, 0, 3, 1)):
+    cases += 1
+    fr = [186e12, 191e12, 193.5e12, 197e12]
+    va = [0.24, 0.2, 0.19, 0.22]
+    kw = dict(base, loss_coef={'frequency': [fr[i] for i in order], 'value': [va[i] for i in order]})
+    prob = []
+    try:
+        f = Fiber(uid='f', type_variety='SSMF', params=deepcopy(kw))
+        got = np.atleast_1d(f.loss_coef_func(np.array(fr))) * 1e3
+        if not close(got, va, 1e-9):
+            prob.append(f'loss at the listed frequencies {got.tolist()} dB/km instead of the listed values {va}')
+        mid = np.array([188.5e12, 192.25e12, 195.25e12])
+        want = np.interp(mid, fr, va)
+        got = np.atleast_1d(f.loss_coef_func(mid)) * 1e3
+        if not close(got, want, 1e-9):
+            prob.append(f'loss between the listed frequencies {got.tolist()} instead of the linear interpolation {want.tolist()}')
+        one = float(np.atleast_1d(f.loss_coef_func(np.array([188.5e12])))[0]) * 1e3
+        if not close(one, want[0], 1e-9):
+            prob.append(f'loss asked for one frequency {one} instead of {want[0]}')
+        a = f.alpha(mid)
+        if not close(a, want * 1e-3 / (10 * math.log10(math.e)), 1e-9):
+            prob.append(f'alpha {a.tolist()} is not the table value in Neper/m')
+    except Exception as e:
+        prob.append(f'{type(e).__name__}: {e}')
+    if prob:
+        wit.append({'key': f'loss-table-listed-in-order-{order}', 'problems': prob[:3]})
+
+# ---- library fibre entries reach the element with the nonlinear coefficient the library states (gamma, or effective area)
+from gnpy.tools.json_io import network_from_json
+for variant, entry in (('gamma-only', {'gamma': 2.0e-3}), ('effective-area-only', {'effective_area': 60e-12}), ('neither', {})):
+    cases += 1
+    eqj = load_json(EXAMPLE / 'eqpt_config.json')
+    eqj['Fiber'].append({'type_variety': 'LIBFIB', 'dispersion': 1.67e-05, 'pmd_coef': 1.265e-15, **entry})
+    lib = _equipment_from_json(deepcopy(eqj), DEFAULT_EXTRA_CONFIG)
+    net = network_from_json({'elements': [{'uid': 'f', 'type': 'Fiber', 'type_variety': 'LIBFIB',
+                                           'params': {'length': 80, 'length_units': 'km', 'loss_coef': 0.2, 'con_in': 0, 'con_out': 0}}],
+                             'connections': []}, lib)
+    f = next(iter(net.nodes()))
+    ref_f = f.params.ref_frequency
+    g = float(np.atleast_1d(f.gamma(np.array([ref_f])))[0])
+    want = entry.get('gamma', 2 * math.pi * 2.6e-20 * ref_f / (c * entry.get('effective_area', 83e-12)))
+    if not close(g, want, 1e-9):
+        wit.append({'key': f'library-fibre:{variant}', 'problems': [f'gamma at the reference frequency {g} instead of {want} (library entry {entry})']})
+
+# ---- amplifier library entries carry the band, ripples and tilt shape of the configuration file they name
+from gnpy.tools.json_io import Amp
+USER = {'f_min': 191.65e12, 'f_max': 195.35e12, 'gain_ripple': [0.1, -0.2, 0.3], 'nf_ripple': [0.5, 0.25, -0.5], 'dgt': [1.0, 1.5, 2.0]}
+ADVC = dict(USER, nf_fit_coeff=[0.0, 0.0, 0.0, 6.0], dgt=[1.0, 1.25, 1.5])
+for type_def, key, extra in (('fixed_gain', 'default_config_from_json', {'nf0': 5.5, 'gain_flatmax': 17, 'gain_min': 17, 'p_max': 21}),
+                             ('variable_gain', 'default_config_from_json', {'nf_min': 5.5, 'nf_max': 9, 'gain_flatmax': 25, 'gain_min': 15, 'p_max': 21}),
+                             ('advanced_model', 'advanced_config_from_json', {'gain_flatmax': 25, 'gain_min': 15, 'p_max': 21})):
+    for own_band in (False, True):
+        cases += 1
+        configs = {'user.json': deepcopy(USER), 'adv.json': deepcopy(ADVC), 'other.json': dict(USER, f_min=1.0, f_max=2.0, dgt=[9.0])}
+        before = deepcopy(configs)
+        name = 'adv.json' if type_def == 'advanced_model' else 'user.json'
+        entry = {'type_variety': 'amp', 'type_def': type_def, key: name, 'out_voa_auto': False, 'allowed_for_design': True, **extra}
+        if own_band:
+            entry['f_min'], entry['f_max'] = 191.9e12, 195.1e12
+        prob = []
+        try:
+            amp = Amp.from_json(configs, **deepcopy(entry))
+            cfg = before[name]
+            for k in ('gain_ripple', 'nf_ripple', 'dgt'):
+                if list(getattr(amp, k)) != cfg[k]:
+                    prob.append(f'{k} {getattr(amp, k)} instead of {cfg[k]} of {name}')
+            want_band = (entry['f_min'], entry['f_max']) if own_band else (cfg['f_min'], cfg['f_max'])
+            if (amp.f_min, amp.f_max) != want_band:
+                prob.append(f'band {amp.f_min}-{amp.f_max} instead of {want_band}')
+            if configs != before:
+                prob.append('the configuration files handed to the loader were modified')
+            if state_of(Amp.from_json(configs, **deepcopy(entry))) != state_of(amp):
+                prob.append('a second load of the same entry gives another amplifier')
+        except Exception as e:
+            prob.append(f'{type(e).__name__}: {e}')
+        if prob:
+            wit.append({'key': f'amp-entry:{type_def}:{"own band" if own_band else "band of the file"}', 'problems': prob[:3]})
+
 # ---- EdfaParams: every key lands on the attribute of the same name (dual-stage blocks included)
 vals = {k: (i + 1) * 1.25 for i, k in enumerate(EdfaParams.default_values)}
 plain = dict(EdfaParams.default_values)
@@ -164,4 +247,5 @@ if prob:
 finish('parameter classes hand over the values of their documents (FiberParams, EdfaParams, dual-stage library entries)', 'bounded',
        'gnpy.core.parameters.FiberParams.__init__, EdfaParams.__init__, gnpy.tools.json_io._update_dual_stage, gnpy.core.elements.Fiber.beta2 / gamma',
        f'{len(combos)} combinations of present / absent FiberParams keys (padding, connectors, reference, dispersion + slope / table, effective area / gamma, '
-       'loss table, lumped loss); one EdfaParams with every key distinct; one dual-stage entry of the shipped library', cases, wit, t0=t0)
+       'loss table, lumped loss); loss tables listed in 3 orders; 3 library fibre entries (gamma / effective area / neither); 6 amplifier entries naming a '
+       'configuration file (fixed / variable gain / advanced model x own band or not); one EdfaParams with every key distinct; one dual-stage entry of the shipped library', cases, wit, t0=t0)
